@@ -3,7 +3,7 @@
 (copies under /tmp, removed afterwards; output redirected so that /verif/evidence is untouched).  Prints the detection matrix."""
 import os, sys, json, subprocess, shutil, tempfile
 from concurrent.futures import ThreadPoolExecutor
-VERIF = "/verif"
+VERIF = os.environ.get("VERIF_DIR", "/verif")
 man = json.load(open(os.path.join(VERIF, "MANIFEST.json")))
 props = [c["property_id"] for c in man["checks"]]
 seeds = sys.argv[1:]
